@@ -434,6 +434,91 @@ def record(ctx: Ctx, rid: int, kind: str, rng: random.Random, write: bool = True
             "write_ok": write_ok, "write_error": err_name, "groups": gidx, "iface": [[a + 1, b + 1, n] for a, b, n in iface]}
 
 
+def shell_stores(ctx: Ctx, rng: random.Random) -> None:
+    """Shell.tla: TLC checks Unique / Owners / Covers / Stable / Conformal / Outward of the shared-point store over every
+    ordered list of up to MaxF outer sides of two unit cubes and emits every finished store with the integer offset direction
+    of every corner; each list is built as faces under a random similarity, handed to the real Shell and every loft compared:
+    bottom = the face as given, top corner = corner + amount x unit(direction); Shell.chop raises exactly for the lists
+    with a solitary face; a connected list, chopped, is written and has 2 x npoints vertices."""
+    import classy_blocks as cb
+    from classy_blocks.construct.shapes.shell import DisconnectedChopError
+    from .c08 import similarity
+    from .grading import cfg_text
+
+    consts = {"MaxF": "3" if ctx.tier == "quick" else "4"}
+    res = run_tlc("Shell", "shell.cfg", cfg_text=cfg_text("Spec", consts, ["Unique", "Owners", "Covers", "Conformal", "Outward"], ["Stable"],
+                                                          constraints=["Emit"]), workers=1, timeout=1200)
+    ctx.add_tlc(res)
+    cases = [r for r in res.records if "shell" in r]
+    if len(cases) < 800:
+        raise MachineryError("Shell.tla emitted too few stores")
+    rng.shuffle(cases)
+    written = 0
+    for n, case in enumerate(cases[: (200 if ctx.tier == "quick" else 3000)]):
+        point, vector, scale = similarity(rng)
+        amount = rng.uniform(0.1, 0.6) * scale
+        rep = {"shell": case["shell"], "amount_over_scale": amount / scale}
+        key = f"{len(case['shell'])}:{case['npoints']}:{case['disconnected']}"
+        try:
+            faces = [cb.Face([point([float(c) for c in p]) for p in pts]) for pts in case["shell"]]
+            before = [[list(q) for q in f.point_array] for f in faces]
+            shell = cb.Shell(faces, amount)
+            ops = shell.operations
+            got = [([list(q) for q in op.bottom_face.point_array], [list(q) for q in op.top_face.point_array]) for op in ops]
+        except Exception as err:  # pylint: disable=broad-except
+            ctx.violation(f"shell:raises:{type(err).__name__}", f"Shell raised {err}", rep)
+            continue
+        ctx.evaluated(f"shell:{case['shell']}")
+        ctx.validated()
+        ctx.nontrivial.add(f"shell-store:{key}")
+        tol = 1e-9 * max(1.0, scale)
+        bad = None
+        if len(got) != len(faces):
+            bad = "count"
+        for f in range(len(faces)):
+            if bad:
+                break
+            for k in range(4):
+                d = vector([float(c) for c in case["dirs"][f][k]])
+                want = vadd(before[f][k], vmul(d, amount / vnorm(d)))
+                if vdist(got[f][0][k], before[f][k]) > tol:
+                    bad = "bottom"
+                elif vdist(got[f][1][k], want) > tol:
+                    bad = "top"
+        if bad:
+            ctx.violation(f"shell:{bad}", f"loft of a Shell differs from Shell.tla's ({bad}): {len(faces)} faces, {case['npoints']} shared points", rep)
+            continue
+        # chop in the offset direction: refused exactly when a face touches no other
+        try:
+            shell.chop(count=2)
+            raised = False
+        except DisconnectedChopError:
+            raised = True
+        except Exception as err:  # pylint: disable=broad-except
+            ctx.violation(f"shell:chop-raises:{type(err).__name__}", f"Shell.chop raised {err}", rep)
+            continue
+        if raised != bool(case["disconnected"]):
+            ctx.violation("shell:disconnected", f"Shell.chop {'refused' if raised else 'accepted'} a list Shell.tla calls "
+                          f"{'disconnected' if case['disconnected'] else 'connected'}", rep)
+            continue
+        if not raised and written < (12 if ctx.tier == "quick" else 100) and n % 3 == 0:
+            written += 1
+            try:
+                for op in ops:
+                    op.chop(0, count=1 + n % 2)
+                    op.chop(1, count=1 + n % 2)
+                mesh = cb.Mesh()
+                mesh.add(shell)
+                mesh.assemble()
+                nverts = len(mesh.vertices)
+                mesh.write(os.path.join(ctx.tmp, "shell_bmd"))
+            except Exception as err:  # pylint: disable=broad-except
+                ctx.violation(f"shell:write:{type(err).__name__}", f"a connected, chopped Shell is not written: {err}", rep)
+                continue
+            if nverts != 2 * case["npoints"]:
+                ctx.violation("shell:nverts", f"Shell of {len(faces)} faces has {nverts} vertices, Shell.tla expects {2 * case['npoints']}", rep)
+
+
 def run(ctx: Ctx) -> None:
     ctx.rule = ("records = every shape class / sketch-based shape / stack / joint / chain in random placement, size and segment "
                 "count with its documented chop calls; non-trivial = more than one block; distinct by (kind, block count)")
@@ -471,5 +556,6 @@ def run(ctx: Ctx) -> None:
                           {k: r[k] for k in ("kind", "nverts", "exp_nverts", "write_error", "iface")})
     ctx.sample({k: recs[3][k] for k in ("kind", "nverts", "exp_nverts", "write_ok")})
     # the repository's example scripts: each must run and write; File.tla RightHanded / WholeSides / SidesTwice on the result
+    shell_stores(ctx, rng)
     examples.judge_examples(ctx, "C11")
     ctx.exhaustive = False
